@@ -357,6 +357,27 @@ func ruleR072(c *Ctx, r *Repo) {
 				c.Fail("R07.2", key, r.Pos(rs.Pos()), "a candidate is appended on a path that has not established, for the object found under the candidate's own name in the package scope, that "+n.what+": "+p.String())
 			}
 		}
+		// nothing else decides: a candidate that passed the three tests is appended (the one further admitted
+		// test is "the named type has a package", false only for universe types)
+		for _, a := range p.Atoms {
+			e := stripRes(a.Expr)
+			known := false
+			for _, n := range need {
+				if e == n.atom || e == "go/types.IsInterface("+obj+".Type().(*types.Named))" {
+					known = true
+				}
+			}
+			if strings.HasSuffix(e, ".Pkg() == nil") && strings.Contains(e, ".Obj()") {
+				known = true
+				c.Check(!a.Val, "R07.2", "ParsePackages|append-guard|has-package", r.Pos(rs.Pos()), "types of a package are appended", "candidates are appended only when their type has no package (universe types): no interface of the package is ever mocked: "+p.String())
+			}
+			if strings.Contains(e, "len(") && strings.Contains(e, "GoFiles") || strings.Contains(e, ".Errors") {
+				known = true // package-level tests of the enclosing loops seen through envBefore
+			}
+			if !known {
+				c.Fail("R07.2", "ParsePackages|append-guard|unknown-condition", r.Pos(rs.Pos()), "whether a candidate that passed the interface tests is appended also depends on "+a.Expr+": "+p.String())
+			}
+		}
 		// the interface is recorded under the candidate's own name
 		okName := false
 		for _, call := range p.CallsTo("config.NewInterface") {
@@ -673,6 +694,7 @@ func ruleR073(c *Ctx, r *Repo) {
 		}
 		c.Check(ok, "R07.4", "GetPackageConfig|miss-is-error", r.Pos(fd.Pos()), "unconfigured package => error", "GetPackageConfig does not return an error exactly when the package is not configured")
 	}
+	ruleCollectionCreated(c, r, "R07.3")
 }
 
 // ruleR075: recursion.
@@ -790,6 +812,65 @@ func ruleR075(c *Ctx, r *Repo, rule string) {
 			}
 		}
 		c.Check(okDrop, rule, "subPackages|no-go-files", r.Pos(fd.Pos()), "packages without Go files are dropped", why)
+		// what was collected is what is returned (mechanical-mutation finding: `return nil` in place of the list)
+		okRet := false
+		whyRet := "no function of subPackages' family collects package paths into a list it returns"
+		for _, g := range withCallees(cp, fd) {
+			var bodies []*ast.BlockStmt
+			bodies = append(bodies, g.Body)
+			ast.Inspect(g.Body, func(n ast.Node) bool {
+				if fl, ok := n.(*ast.FuncLit); ok {
+					bodies = append(bodies, fl.Body)
+				}
+				return true
+			})
+			for _, b := range bodies {
+				var acc types.Object
+				var loopEnd token.Pos
+				ast.Inspect(b, func(n ast.Node) bool {
+					if fl, ok := n.(*ast.FuncLit); ok && fl.Body != b {
+						return false
+					}
+					if rs2, ok := n.(*ast.RangeStmt); ok {
+						ast.Inspect(rs2.Body, func(m ast.Node) bool {
+							as, ok := m.(*ast.AssignStmt)
+							if !ok || len(as.Lhs) != 1 || len(as.Rhs) != 1 {
+								return true
+							}
+							call, ok := ast.Unparen(as.Rhs[0]).(*ast.CallExpr)
+							if ok && calleeName(info, call) == "builtin.append" && len(call.Args) == 2 && strings.HasSuffix(types.ExprString(call.Args[1]), ".PkgPath") {
+								if id, ok := as.Lhs[0].(*ast.Ident); ok {
+									acc, loopEnd = objOf(info, id), rs2.End()
+								}
+							}
+							return true
+						})
+					}
+					return true
+				})
+				if acc == nil {
+					continue
+				}
+				okRet, whyRet = true, ""
+				nRet := 0
+				ast.Inspect(b, func(n ast.Node) bool {
+					if fl, ok := n.(*ast.FuncLit); ok && fl.Body != b {
+						return false
+					}
+					if ret, ok := n.(*ast.ReturnStmt); ok && ret.Pos() > loopEnd && len(ret.Results) >= 1 {
+						nRet++
+						if id, ok := ast.Unparen(ret.Results[0]).(*ast.Ident); !ok || info.Uses[id] != acc {
+							okRet, whyRet = false, "after collecting the sub-packages' paths the function returns "+types.ExprString(ret.Results[0])+" instead of the collected list"
+						}
+					}
+					return true
+				})
+				if nRet == 0 {
+					okRet, whyRet = false, "the collected list is never returned"
+				}
+			}
+		}
+		c.Check(okRet, rule, "subPackages|returns-collected", r.Pos(fd.Pos()), "the collected paths are returned", "subPackages: "+whyRet)
 	}
 	init := FuncDecl(cp, "RootConfig.Initialize")
 	if init == nil {
@@ -877,6 +958,17 @@ func ruleR075(c *Ctx, r *Repo, rule string) {
 				}
 				c.Check(inPlace, rule, "Initialize|inject", r.Pos(rs.Pos()), "an existing sub-package is completed in place", "an already configured sub-package is neither completed in place nor stored back: "+p.String())
 				continue
+			}
+			// a sub-package that has no entry yet gets a fresh, non-nil one (mechanical-mutation finding: with the
+			// constructor call deleted the merge dereferences a nil *PackageConfig)
+			if ex0, hasExist0 := atomVal(p, "RECV.Packages[SUBPKG]#ok"); hasExist0 && !ex0 {
+				fresh := false
+				for _, call := range p.CallsTo("config.mergeConfigs") {
+					if len(call.Args) == 3 && (strings.Contains(call.Args[2], "NewPackageConfig(") || strings.Contains(call.Args[2], "PackageConfig{")) {
+						fresh = true
+					}
+				}
+				c.Check(fresh, rule, "Initialize|inject-fresh", r.Pos(rs.Pos()), "a new sub-package starts from a fresh package config", "a discovered sub-package without an entry is not given a fresh package config before the recursive package's config is merged into it (nil dereference): "+strings.Join(p.Steps, "; "))
 			}
 			c.Check(stores == 1 && merged, rule, "Initialize|inject", r.Pos(rs.Pos()), "non-excluded sub-package gets the recursive package's config merged in and is stored", fmt.Sprintf("a non-excluded sub-package is not (stores=%d) stored under its path with the recursive package's config merged into it: %s", stores, p.String()))
 			ex, hasExist := atomVal(p, "RECV.Packages[SUBPKG]#ok")
